@@ -1057,7 +1057,7 @@ class Executor(object):
                 args.extend(self.eval(a.value, st))
             else:
                 args.append(self.eval(a, st))
-        kwargs = {k.arg: self.eval(k.value, st) for k in node.keywords}
+        kwargs = self._eval_keywords(node, st)
         if self_obj is not None:
             args = [self_obj] + args
         params = [p.arg for p in fn.args.args]
@@ -1649,11 +1649,23 @@ class Executor(object):
                 args.append(box)
             else:
                 args.append(self.eval(a, st))
-        kwargs = {k.arg: self.eval(k.value, st) for k in node.keywords}
+        kwargs = self._eval_keywords(node, st)
         r = self.call(f, args, kwargs, st, node)
         for tgt, box in boxes:
             self.assign(tgt, box[0], st)
         return r
+
+    def _eval_keywords(self, node, st):
+        kwargs = {}
+        for k in node.keywords:
+            v = self.eval(k.value, st)
+            if k.arg is None:           # f(**mapping)
+                if not isinstance(v, dict):
+                    raise VCError('** of a non-dict at %s' % self.where(node))
+                kwargs.update(v)
+            else:
+                kwargs[k.arg] = v
+        return kwargs
 
     def call(self, f, args, kwargs, st, node):
         if isinstance(f, Native):
